@@ -6,7 +6,43 @@ use glonax::driver::net::hydraulic::ActuatorMessage;
 use glonax::driver::HydraulicControlUnit;
 use glonax::runtime::{J1939Unit, NetDriverContext};
 
+/// the wire form of a motion command as a client writes it (by hand, not through the encoder under test)
+fn motion_wire(m: &Motion) -> Vec<u8> {
+    match m {
+        Motion::StopAll => vec![0x00],
+        Motion::ResumeAll => vec![0x01],
+        Motion::ResetAll => vec![0x02],
+        Motion::StraightDrive(v) => {
+            let b = v.to_be_bytes();
+            vec![0x05, b[0], b[1]]
+        }
+        Motion::Change(c) => {
+            let mut p = vec![0x10, c.len() as u8];
+            for cs in c {
+                p.extend_from_slice(&(cs.actuator as u16).to_be_bytes());
+                p.extend_from_slice(&cs.value.to_be_bytes());
+            }
+            p
+        }
+    }
+}
+
 fn one(out: &mut Out, da: u8, sa: u8, m: &Motion) {
+    one_obj(out, da, sa, m, Some(m.clone()));
+    // the same command as it ARRIVES: decoded from its wire form by the decoder every client command passes through
+    let decoded = guarded(std::panic::AssertUnwindSafe(|| Motion::try_from(motion_wire(m)).ok())).flatten();
+    one_obj(out, da, sa, m, decoded);
+}
+
+fn one_obj(out: &mut Out, da: u8, sa: u8, m: &Motion, given: Option<Motion>) {
+    let given = match given {
+        Some(g) => g,
+        None => {
+            out.case(&format!("{} {} {}", da, sa, fmt::motion(m)), "REJECTED", true);
+            return;
+        }
+    };
+    let m = &given;
     let hcu = HydraulicControlUnit::new("vcan0", da, sa);
     let mut ctx = NetDriverContext::default();
     let mut txq = vec![];
